@@ -64,53 +64,68 @@ Proof.
   replace (S (length (mem c)) + (F' - S (length (mem c))))%nat with F' in E' by lia. congruence.
 Qed.
 
-(* the loop walks through the first message unit by unit and hands exactly that message to SCPI_Parse *)
+(* the loop walks through the first message unit by unit and hands exactly that message to SCPI_Parse; the message ends with a
+   line feed, a carriage return, or a carriage return and the line feed behind it *)
+Definition mlen (a0:bytes) (tm:N) (rest:bytes) : Z :=
+  Z.of_nat (length a0) + (if (tm =? 13)%N && LexModel.starts (LexModel.ischr 10%N) rest then 2 else 1).
+Lemma scan_msg_gen d a0 tm rest : seg a0 -> (tm = 10%N \/ tm = 13%N) -> forall f tot c res, mem c = a0 ++ tm :: rest ->
+  0 <= tot <= Z.of_nat (length a0) -> (Z.to_nat (Z.of_nat (length a0) - tot) < f)%nat ->
+  exists k, (1 <= k <= f)%nat /\ Z.of_nat k <= Z.of_nat (length a0) + 1 - tot /\
+    input_loop f c tot res d =
+      (let '(c1, res1) := scpi_parse c (mlen a0 tm rest) d in
+       input_loop (f - k) (upd_mem c1 (dropm (mem c1) (mlen a0 tm rest))) 0 res1 d).
+Proof.
+  intros Ha0 Htm f. induction f as [|f IH]; intros tot c res Hm Htot Hf; [ulia|].
+  cbn [input_loop]. rewrite Hm.
+  assert (Hd : dropm (a0 ++ tm :: rest) tot = skipn (Z.to_nat tot) a0 ++ tm :: rest).
+  { unfold dropm. rewrite skipn_app. replace (Z.to_nat tot - length a0)%nat with O by ulia. reflexivity. }
+  rewrite Hd. set (s := skipn (Z.to_nat tot) a0).
+  assert (Hs : seg s) by (apply seg_skipn; exact Ha0).
+  assert (Hls : Z.of_nat (length s) = Z.of_nat (length a0) - tot) by (subst s; rewrite skipn_length; ulia).
+  assert (Hpos : Z.of_nat (length (a0 ++ tm :: rest)) = Z.of_nat (length a0) + 1 + Z.of_nat (length rest))
+    by (rewrite app_length; cbn [length]; ulia).
+  assert (Hml : mlen a0 tm rest <= Z.of_nat (length a0) + 1 + Z.of_nat (length rest)).
+  { unfold mlen. destruct ((tm =? 13)%N && _) eqn:E; [|ulia]. apply andb_true_iff in E as [_ E]. destruct rest; [discriminate E|cbn [length]; ulia]. }
+  assert (Htc : LexCut.tchar tm) by (destruct Htm as [->| ->]; [left|right; left]; reflexivity).
+  (* the unit at tot: decided by the bytes up to the first terminator *)
+  assert (Hu : exists a t lf, LexCut.plain a /\ LexModel.detect_unit (s ++ tm :: rest) = LexCut.detect_t a t lf /\
+                 ((t = tm /\ a = s /\ lf = LexModel.starts (LexModel.ischr 10%N) rest) \/ (t = 59%N /\ Z.of_nat (length a) + 1 <= Z.of_nat (length s)))).
+  { destruct (seg_split s Hs) as [Hp|(a & z & E & Hp & Hz)].
+    - exists s, tm, (LexModel.starts (LexModel.ischr 10%N) rest). split; [exact Hp|]. split; [apply LexCut.detect_cut; assumption|left; auto].
+    - exists a, 59%N, (LexModel.starts (LexModel.ischr 10%N) (z ++ tm :: rest)). split; [exact Hp|]. split.
+      + rewrite E, <- app_assoc. cbn [app]. apply LexCut.detect_cut; [exact Hp|right; right; reflexivity].
+      + right. split; [reflexivity|]. rewrite E, app_length. cbn [length]. ulia. }
+  destruct Hu as (a & t & lf & Hp & Hu & Hcase). rewrite Hu.
+  assert (Hstep : forall tot1, tot < tot1 <= Z.of_nat (length a0) ->
+     exists k, (1 <= k <= S f)%nat /\ Z.of_nat k <= Z.of_nat (length a0) + 1 - tot /\
+       input_loop f c tot1 res d =
+       (let '(c1, res1) := scpi_parse c (mlen a0 tm rest) d in
+        input_loop (S f - k) (upd_mem c1 (dropm (mem c1) (mlen a0 tm rest))) 0 res1 d)).
+  { intros tot1 H1. destruct (IH tot1 c res Hm ltac:(ulia) ltac:(ulia)) as (k & Hk & Hk2 & E).
+    exists (S k). split; [ulia|]. split; [ulia|]. replace (S f - S k)%nat with (f - k)%nat by ulia. exact E. }
+  destruct (LexCut.detect_t_shape a t lf Hp) as [[Hterm Hcons]|[Hterm [Hhdr Hcons]]].
+  - destruct Hcase as [(-> & -> & ->)|[-> Hlen]].
+    + (* the terminator of the message: it is complete *)
+      rewrite Hterm. assert (E59 : (tm =? 59)%N = false) by (destruct Htm as [->| ->]; reflexivity). rewrite E59.
+      rewrite Hcons. exists 1%nat. split; [ulia|]. split; [ulia|].
+      unfold LexModel.bytes, LexModel.byte in *.
+      replace (tot + (Z.of_nat (length s) + (if (tm =? 13)%N && LexModel.starts (LexModel.ischr 10%N) rest then 2 else 1))) with (mlen a0 tm rest) by (unfold mlen; lia).
+      replace (S f - 1)%nat with f by lia. reflexivity.
+    + rewrite Hterm. cbn [N.eqb Pos.eqb]. rewrite andb_false_r. rewrite Hcons. cbn [N.eqb Pos.eqb andb].
+      destruct (Z.leb_spec (Z.of_nat (length (a0 ++ tm :: rest))) (tot + (Z.of_nat (length a) + 1))); [ulia|].
+      destruct (Hstep (tot + (Z.of_nat (length a) + 1)) ltac:(ulia)) as (k & Hk & Hk2 & E). exists k. auto.
+  - rewrite Hterm, Hhdr. cbn [andb].
+    assert (Hla : Z.of_nat (length a) <= Z.of_nat (length s)) by (destruct Hcase as [(_ & -> & _)|[_ H]]; ulia).
+    destruct (Z.leb_spec (Z.of_nat (length (a0 ++ tm :: rest))) (tot + LexModel.u_consumed (LexCut.detect_t a t lf))); [ulia|].
+    destruct (Hstep (tot + LexModel.u_consumed (LexCut.detect_t a t lf)) ltac:(ulia)) as (k & Hk & Hk2 & E). exists k. auto.
+Qed.
 Lemma scan_msg d a0 rest : seg a0 -> forall f tot c res, mem c = a0 ++ 10%N :: rest -> 0 <= tot <= Z.of_nat (length a0) ->
   (Z.to_nat (Z.of_nat (length a0) - tot) < f)%nat ->
   exists k, (1 <= k <= f)%nat /\ Z.of_nat k <= Z.of_nat (length a0) + 1 - tot /\
     input_loop f c tot res d =
       (let '(c1, res1) := scpi_parse c (Z.of_nat (length a0) + 1) d in
        input_loop (f - k) (upd_mem c1 (dropm (mem c1) (Z.of_nat (length a0) + 1))) 0 res1 d).
-Proof.
-  intros Ha0 f. induction f as [|f IH]; intros tot c res Hm Htot Hf; [ulia|].
-  cbn [input_loop]. rewrite Hm.
-  assert (Hd : dropm (a0 ++ 10%N :: rest) tot = skipn (Z.to_nat tot) a0 ++ 10%N :: rest).
-  { unfold dropm. rewrite skipn_app. replace (Z.to_nat tot - length a0)%nat with O by ulia. reflexivity. }
-  rewrite Hd. set (s := skipn (Z.to_nat tot) a0).
-  assert (Hs : seg s) by (apply seg_skipn; exact Ha0).
-  assert (Hls : Z.of_nat (length s) = Z.of_nat (length a0) - tot) by (subst s; rewrite skipn_length; ulia).
-  assert (Hpos : Z.of_nat (length (a0 ++ 10%N :: rest)) = Z.of_nat (length a0) + 1 + Z.of_nat (length rest))
-    by (rewrite app_length; cbn [length]; ulia).
-  (* the unit at tot: decided by the bytes up to the first terminator *)
-  assert (Hu : exists a t, LexCut.plain a /\ LexCut.tchar t /\ LexModel.detect_unit (s ++ 10%N :: rest) = LexCut.detect_t a t /\
-                 ((t = 10%N /\ a = s) \/ (t = 59%N /\ Z.of_nat (length a) + 1 <= Z.of_nat (length s)))).
-  { destruct (seg_split s Hs) as [Hp|(a & z & E & Hp & Hz)].
-    - exists s, 10%N. split; [exact Hp|]. split; [left; reflexivity|]. split; [apply LexCut.detect_cut; [exact Hp|left; reflexivity]|left; auto].
-    - exists a, 59%N. split; [exact Hp|]. split; [right; reflexivity|]. split.
-      + rewrite E, <- app_assoc. cbn [app]. apply LexCut.detect_cut; [exact Hp|right; reflexivity].
-      + right. split; [reflexivity|]. rewrite E, app_length. cbn [length]. ulia. }
-  destruct Hu as (a & t & Hp & Ht & Hu & Hcase). rewrite Hu.
-  assert (Hstep : forall tot1, tot < tot1 <= Z.of_nat (length a0) ->
-     exists k, (1 <= k <= S f)%nat /\ Z.of_nat k <= Z.of_nat (length a0) + 1 - tot /\
-       input_loop f c tot1 res d =
-       (let '(c1, res1) := scpi_parse c (Z.of_nat (length a0) + 1) d in
-        input_loop (S f - k) (upd_mem c1 (dropm (mem c1) (Z.of_nat (length a0) + 1))) 0 res1 d)).
-  { intros tot1 H1. destruct (IH tot1 c res Hm ltac:(ulia) ltac:(ulia)) as (k & Hk & Hk2 & E).
-    exists (S k). split; [ulia|]. split; [ulia|]. replace (S f - S k)%nat with (f - k)%nat by ulia. exact E. }
-  destruct (LexCut.detect_t_shape a t Hp) as [[Hterm Hcons]|[Hterm [Hhdr Hcons]]].
-  - destruct Hcase as [[-> ->]|[-> Hlen]].
-    + (* the line feed: the message is complete *)
-      rewrite Hterm. cbn [N.eqb Pos.eqb]. rewrite Hcons. exists 1%nat. split; [ulia|]. split; [ulia|].
-      unfold LexModel.bytes, LexModel.byte in *. replace (tot + (Z.of_nat (length s) + 1)) with (Z.of_nat (length a0) + 1) by lia.
-      replace (S f - 1)%nat with f by ulia. reflexivity.
-    + rewrite Hterm. cbn [N.eqb Pos.eqb]. rewrite andb_false_r. rewrite Hcons.
-      destruct (Z.leb_spec (Z.of_nat (length (a0 ++ 10%N :: rest))) (tot + (Z.of_nat (length a) + 1))); [ulia|].
-      destruct (Hstep (tot + (Z.of_nat (length a) + 1)) ltac:(ulia)) as (k & Hk & Hk2 & E). exists k. auto.
-  - rewrite Hterm, Hhdr. cbn [andb].
-    assert (Hla : Z.of_nat (length a) <= Z.of_nat (length s)) by (destruct Hcase as [[_ ->]|[_ H]]; ulia).
-    destruct (Z.leb_spec (Z.of_nat (length (a0 ++ 10%N :: rest))) (tot + LexModel.u_consumed (LexCut.detect_t a t))); [ulia|].
-    destruct (Hstep (tot + LexModel.u_consumed (LexCut.detect_t a t)) ltac:(ulia)) as (k & Hk & Hk2 & E). exists k. auto.
-Qed.
+Proof. intros Ha0 f tot c res Hm Htot Hf. exact (scan_msg_gen d a0 10%N rest Ha0 (or_introl eq_refl) f tot c res Hm Htot Hf). Qed.
 
 (* ---------- SCPI_Parse leaves the bytes behind the message alone (header composition writes in front of a header) ---------- *)
 Lemma skipn_more {A} (l l':list A) a b : (a <= b)%nat -> skipn a l = skipn a l' -> skipn b l = skipn b l'.
@@ -281,18 +296,27 @@ Print Assumptions ok_stream_any_partition.
 Definition parse_local (d:Z -> bytes) : Prop := forall c a0 rest y, mem c = a0 ++ 10%N :: rest -> seg a0 ->
   scpi_parse (upd_mem c (mem c ++ y)) (Z.of_nat (length a0) + 1) d =
   (let '(c1, r) := scpi_parse c (Z.of_nat (length a0) + 1) d in (upd_mem c1 (mem c1 ++ y), r)).
-(* for any content of the message, quoted strings and blocks included, as long as no line terminator occurs inside it *)
-Theorem parse_is_local_any d c a0 rest y : mem c = a0 ++ 10%N :: rest -> no_nl a0 ->
+(* for any content of the message, quoted strings and blocks included, as long as no line terminator occurs inside it; the
+   message ends with a line feed or a carriage return *)
+Lemma getm_at (a0 rest:bytes) tm : getm (a0 ++ tm :: rest) (Z.of_nat (length a0)) = tm.
+Proof.
+  unfold getm. destruct (Z.ltb_spec (Z.of_nat (length a0)) 0); [lia|]. rewrite Nat2Z.id. rewrite app_nth2 by lia.
+  replace (length a0 - length a0)%nat with O by lia. reflexivity.
+Qed.
+Theorem parse_is_local_t d tm c a0 rest y : tm = 10%N \/ tm = 13%N -> mem c = a0 ++ tm :: rest -> no_nl a0 ->
   scpi_parse (upd_mem c (mem c ++ y)) (Z.of_nat (length a0) + 1) d =
   (let '(c1, r) := scpi_parse c (Z.of_nat (length a0) + 1) d in (upd_mem c1 (mem c1 ++ y), r)).
 Proof.
-  intros Hm Ha0.
-  apply (ParseLocal.scpi_parse_local y (Z.of_nat (length a0)) d c).
-  unfold ParseLocal.Wm. rewrite Hm. split; [rewrite app_length; cbn [length]; lia|]. split.
-  - replace (Z.of_nat (length a0)) with (Z.of_nat (length a0) + 1 - 1) by lia. apply getm_msg.
-  - intros i Hi. unfold getm. destruct (Z.ltb_spec i 0); [lia|]. rewrite app_nth1 by lia.
-    assert (Hn : (Z.to_nat i < length a0)%nat) by lia. apply Ha0. apply nth_In. exact Hn.
+  intros Htm Hm Ha0.
+  apply (ParseLocal.scpi_parse_local y (Z.of_nat (length a0)) tm Htm d c).
+  unfold ParseLocal.Wm. rewrite Hm. split; [rewrite app_length; cbn [length]; lia|]. split; [apply getm_at|].
+  intros i Hi. unfold getm. destruct (Z.ltb_spec i 0); [lia|]. rewrite app_nth1 by lia.
+  assert (Hn : (Z.to_nat i < length a0)%nat) by lia. apply Ha0. apply nth_In. exact Hn.
 Qed.
+Theorem parse_is_local_any d c a0 rest y : mem c = a0 ++ 10%N :: rest -> no_nl a0 ->
+  scpi_parse (upd_mem c (mem c ++ y)) (Z.of_nat (length a0) + 1) d =
+  (let '(c1, r) := scpi_parse c (Z.of_nat (length a0) + 1) d in (upd_mem c1 (mem c1 ++ y), r)).
+Proof. intros Hm Ha0. exact (parse_is_local_t d 10%N c a0 rest y (or_introl eq_refl) Hm Ha0). Qed.
 Theorem parse_is_local d : parse_local d.
 Proof. intros c a0 rest y Hm Ha0. apply (parse_is_local_any d c a0 rest y Hm). apply seg_no_nl, Ha0. Qed.
 Print Assumptions parse_is_local_any.
